@@ -4,8 +4,11 @@ import (
 	"encoding/json"
 	"errors"
 	"fmt"
+	"io/fs"
+	"os"
 	"path/filepath"
 	"strings"
+	"syscall"
 	"time"
 
 	"github.com/osteele/liquid"
@@ -271,6 +274,47 @@ func c20Find(c *Ctx, cs *C20Case, r *Rng, out *CaseOut, wantSig string) []c20Fai
 			}
 		}
 	}
+	// Destinations that are real files: a descriptor opened read-only, /dev/full, the write
+	// end of a pipe whose read end is closed. Every write fails (EBADF, ENOSPC, EPIPE) with
+	// an error value the operating system makes; the call must fail and carry it.
+	if W >= 1 && len(base.Accepted) > 0 && (wantSig == "" || strings.HasPrefix(wantSig, "osfile|")) {
+		for kind := 0; kind < 3; kind++ {
+			f, ok := failingFile(kind)
+			if !ok {
+				if c != nil {
+					c.count("osfile_destination_unavailable", 1)
+				}
+				continue
+			}
+			simrt.SetMapOrder(simrt.OrderAsc, 0)
+			simrt.SetClock(time.Unix(1700000000, 0).UTC())
+			res := Run(x.cs.EP, x.eng, x.tpl, x.src, x.b, f)
+			f.Close()
+			out.Evals++
+			name := []string{"read-only descriptor", "/dev/full", "closed pipe"}[kind]
+			if c != nil {
+				c.count("fault:osfile_"+[]string{"ebadf", "enospc", "epipe"}[kind], 1)
+				c.logf("osfile %d: ok=%v panic=%q", kind, res.OK, res.Panic)
+			}
+			var ff c20Fail
+			ff.k = -1 - kind
+			switch {
+			case res.Panic != "":
+				ff.clause, ff.sig, ff.detail = "no-panic", "osfile|no-panic", fmt.Sprintf("panic %q at %s (destination: %s)", res.Panic, res.Frame, name)
+			case res.OK || res.raw == nil:
+				ff.clause, ff.sig, ff.detail = "returns-error", "osfile|returns-error", fmt.Sprintf("call returned success although every Write to the destination (an *os.File: %s) fails", name)
+			case !carriesOSError(res.raw):
+				ff.clause, ff.sig, ff.detail = "carries-failure", "osfile|carries-failure", fmt.Sprintf("returned error %q does not carry the operating system's write error (destination: %s)", res.Err, name)
+			}
+			if ff.clause != "" && !sigs[ff.sig] && (wantSig == "" || wantSig == ff.sig) {
+				sigs[ff.sig] = true
+				fails = append(fails, ff)
+				if wantSig != "" {
+					return fails
+				}
+			}
+		}
+	}
 	for _, f := range c20Plan(r, base.Calls) {
 		w := &FaultWriter{K: f.k, Accept: f.accept, Sticky: f.sticky}
 		res := x.run(w)
@@ -306,6 +350,41 @@ func c20Find(c *Ctx, cs *C20Case, r *Rng, out *CaseOut, wantSig string) []c20Fai
 		}
 	}
 	return fails
+}
+
+// failingFile opens an *os.File every write to which fails.
+func failingFile(kind int) (*os.File, bool) {
+	switch kind {
+	case 0:
+		f, err := os.Open("/dev/null") // read-only: write gives EBADF
+		return f, err == nil
+	case 1:
+		f, err := os.OpenFile("/dev/full", os.O_WRONLY, 0) // write gives ENOSPC
+		return f, err == nil
+	default:
+		r, w, err := os.Pipe()
+		if err != nil {
+			return nil, false
+		}
+		r.Close() // write gives EPIPE (no signal: not descriptor 1 or 2)
+		return w, true
+	}
+}
+
+// carriesOSError: the chain (Cause / Unwrap) reaches an *fs.PathError or a syscall.Errno.
+func carriesOSError(err error) bool {
+	for i := 0; err != nil && i < 30; i++ {
+		switch err.(type) {
+		case *fs.PathError, syscall.Errno:
+			return true
+		}
+		if c, ok := err.(interface{ Cause() error }); ok && c.Cause() != nil && c.Cause() != err {
+			err = c.Cause()
+			continue
+		}
+		err = errors.Unwrap(err)
+	}
+	return false
 }
 
 var errWriterA, errWriterB = errors.New("verif-writer-A-failed-51c2"), errors.New("verif-writer-B-failed-9e07")
